@@ -574,6 +574,7 @@ func main() {
 		cond := sync.NewCond(&mu)
 		results := map[int]*outcome{}
 		next := 0 // next index hx will emit
+		running := 0
 		jobs := make(chan int)
 		go func() {
 			for i := range plans {
@@ -588,6 +589,14 @@ func main() {
 				if len(procs) > 0 && i%2048 == 0 {
 					runtime.GOMAXPROCS(procs[(i/2048)%len(procs)])
 				}
+				// no more conversations at a time than the processors in use can serve (with one or two
+				// processors and the race detector, 64 conversations at once are slower than the harness's waits)
+				mu.Lock()
+				for limit := 4 * runtime.GOMAXPROCS(0); h.Only < 0 && running >= limit && running >= 8; limit = 4 * runtime.GOMAXPROCS(0) {
+					cond.Wait()
+				}
+				running++
+				mu.Unlock()
 				jobs <- i
 			}
 			close(jobs)
@@ -622,6 +631,10 @@ func main() {
 			go func() {
 				for i := range jobs {
 					runOne(i)
+					mu.Lock()
+					running--
+					cond.Broadcast()
+					mu.Unlock()
 				}
 			}()
 		}
